@@ -35,8 +35,10 @@ def triple(draw):
     r = gen.rng(draw)
     t = {"kind": kind, "seed": seed}
     if kind in ("kmeans", "gmm"):
-        c = gen.kmeans_data(draw, max_rows=24, min_rows=6)
-        t.update(X=c["X"], k=min(c["k"], 3), init=gen.choice(draw, ["random", "k-means||"]),
+        # few rows and up to five clusters: seeded initialisers that draw rows then often start two clusters on the
+        # same row (or on equal rows of quantised data)
+        c = gen.kmeans_data(draw, max_rows=gen.choice(draw, [24, 10, 8]), min_rows=6)
+        t.update(X=c["X"], k=min(c["k"], gen.choice(draw, [3, 5])), init=gen.choice(draw, ["random", "k-means||"]),
                  dask=gen.boolean(draw), chunks=gen.composition(draw, c["X"].shape[0], max_parts=3))
     elif kind == "wccn":
         from vf.props.c14 import full_rank_data
